@@ -20,11 +20,16 @@ template <class U> struct ParkAlloc { using value_type = U; ParkAlloc() = defaul
 struct Cell { int tag; int pad[3]; };
 template <class E> static void run_ets() {
     int pre = (int)vf_param_int("pre", 0), n = (int)vf_param_int("n", 3); park_want = 0;
-    E ets([] { ++inits; return Cell{0, {0, 0, 0}}; });
+    // -p moved=1|2 : the pre registered threads used ANOTHER container, which is then moved (1 move construction, 2 move assignment) into
+    // the container the window works on: the element count and the thread table must arrive together, or later first accesses miss growth
+    int moved = (int)vf_param_int("moved", 0);
+    E first([] { ++inits; return Cell{0, {0, 0, 0}}; });
     std::vector<Cell*> addr(pre + n, nullptr), addr2(pre + n, nullptr); std::vector<int> exists(pre + n, -1);
     static int never; int parked = 0;
-    for (int i = 0; i < pre; i++) spawn([&, i] { Cell& c = ets.local(); c.tag = 100 + i; addr[i] = addr2[i] = &c; exists[i] = 1; parked++; vf_block_on(&never); });   // registered threads stay alive, outside the window
+    for (int i = 0; i < pre; i++) spawn([&, i] { Cell& c = first.local(); c.tag = 100 + i; addr[i] = addr2[i] = &c; exists[i] = 1; parked++; vf_block_on(&never); });   // registered threads stay alive, outside the window
     while (parked < pre) vf_yield();
+    E second = moved == 1 ? E(std::move(first)) : E([] { ++inits; return Cell{0, {0, 0, 0}}; }); if (moved == 2) second = std::move(first);
+    E& ets = moved ? second : first;
     park_want = (int)vf_param_int("park", 0); park_have = 0; park_open = 0; vf_liveness(1);
     auto ids = gated(n, nullptr,
                      [&](int j) { int i = pre + j; bool ex = true; Cell& c = ets.local(ex); exists[i] = ex; if (i >= pre) { if (c.tag != 0) vf_fail("thread %d got an element that already carries tag %d", i, c.tag); c.tag = 100 + i; addr[i] = &c; }
